@@ -17,3 +17,12 @@ open Comrak.C20
 #print axioms empty_body_counterexample
 #print axioms mixed_endings_counterexample
 #print axioms bom_rest_counterexample
+#print axioms html_front_matter_absent
+#print axioms html_front_matter_absent_doc
+#print axioms html_front_matter_absent_bytes
+#print axioms xml_front_matter_is_empty_element
+#print axioms xml_front_matter_one_element_doc
+#print axioms xml_front_matter_not_absent
+#print axioms cm_front_matter_alone
+#print axioms cm_front_matter_alone_lf
+#print axioms cm_front_matter_verbatim
